@@ -42,9 +42,18 @@ class Record:
         self.fields = fields
 
 
+class OptList:
+    """Optional[list]: only its truthiness is used."""
+
+    def __init__(self, name):
+        self.nonempty = z3.Bool(name + '_given')
+
+
 def _truth(v):
     if isinstance(v, OptStr):
         return v.truthy()
+    if isinstance(v, OptList):
+        return v.nonempty
     if isinstance(v, z3.BoolRef):
         return v
     if isinstance(v, bool):
@@ -81,6 +90,18 @@ class _Eval:
             if e.value is None or isinstance(e.value, bool):
                 return e.value
             raise Unsupported(f'constant {e.value!r}')
+        if isinstance(e, ast.Call):
+            f = e.func
+            # options.args() -> the record of parsed options
+            if isinstance(f, ast.Attribute) and f.attr == 'args' and \
+                    isinstance(f.value, ast.Name) and f.value.id == 'options' \
+                    and '__args__' in self.env and not e.args:
+                return self.env['__args__']
+            if isinstance(f, ast.Name) and f.id in self.env.get('__calls__',
+                                                                {}):
+                args = [self.expr(a, guard) for a in e.args]
+                return self.env['__calls__'][f.id](self, args, guard)
+            raise Unsupported('call of ' + ast.dump(f)[:60])
         if isinstance(e, ast.Attribute):
             base = self.expr(e.value, guard)
             if isinstance(base, Record) and e.attr in base.fields:
@@ -127,19 +148,46 @@ class _Eval:
         for k, st in enumerate(stmts):
             if isinstance(st, ast.Expr) and isinstance(st.value, ast.Constant):
                 continue                      # docstring
+            if isinstance(st, ast.Assign) and len(st.targets) == 1 and \
+                    isinstance(st.targets[0], ast.Name):
+                self.env = dict(self.env)
+                self.env[st.targets[0].id] = self.expr(st.value, guard)
+                continue
             if isinstance(st, ast.Return):
                 return _truth(self.expr(st.value, guard))
             if isinstance(st, ast.If):
                 c = _truth(self.expr(st.test, guard))
                 rest = stmts[k + 1:]
+                saved_env = self.env
                 t = self.block(list(st.body) + rest, z3.And(guard, c))
+                self.env = saved_env
                 f = self.block(list(st.orelse) + rest,
                                z3.And(guard, z3.Not(c)))
+                self.env = saved_env
                 if t is None or f is None:
                     raise Unsupported('a path without return')
                 return z3.If(c, t, f)
             raise Unsupported(type(st).__name__)
         return None
+
+
+def inliner(fn):
+    """A call hook that evaluates ``fn`` (same subset) on the argument
+    values; raise conditions of the callee are added to the caller's."""
+    src = textwrap.dedent(inspect.getsource(fn))
+    fdef = ast.parse(src).body[0]
+    params = [a.arg for a in fdef.args.args]
+
+    def hook(ev, args, guard):
+        if len(args) != len(params):
+            raise Unsupported('arity of ' + fdef.name)
+        sub = _Eval(dict(zip(params, args)))
+        res = sub.block(fdef.body, guard)
+        if res is None:
+            raise Unsupported(fdef.name + ' may fall off its end')
+        ev.errors.extend(sub.errors)
+        return res
+    return hook
 
 
 def translate(fn, env):
@@ -154,6 +202,7 @@ def translate(fn, env):
     if missing:
         raise Unsupported(f'parameters without a model: {missing}')
     ev = _Eval(env)
+    translate.last_eval = ev
     res = ev.block(fdef.body, z3.BoolVal(True))
     if res is None:
         raise Unsupported('function may fall off its end')
